@@ -92,6 +92,8 @@ stats! {
     bulk_repeat_after_full,
     bulk_overflow,
     bulk_nonfused_sources,
+    bulk_lying_hints,
+    bulk_lib_sources,
     liar_lies,
     liar_mutation_after_lie,
     fault_fired,
